@@ -1,8 +1,62 @@
 package main
 
 import (
+	"fmt"
 	"go/types"
+	"regexp"
+	"strings"
 )
+
+var strLitRe = regexp.MustCompile(`\|str:("(?:[^"\\|]|\\.)*")\|`)
+var identRe = regexp.MustCompile(`[A-Za-z_][A-Za-z0-9_!.]*`)
+
+// sexprArgsList splits "((a T) (b U))" into its elements.
+func sexprArgsList(s string) (string, []string, bool) {
+	op, args, ok := sexprArgs("(list " + strings.TrimSpace(s)[1:])
+	return op, args, ok
+}
+
+// stringsTheoryQuery builds a self-contained query about text in the solvers'
+// theory of strings: the uninterpreted string operations of the engine are
+// defined by their SMT-LIB counterparts and literals become string constants.
+// Only formulas over strings, integers and booleans are supported.
+func stringsTheoryQuery(negGoal string) string {
+	var sb strings.Builder
+	sb.WriteString("(set-option :produce-models true)\n(set-logic ALL)\n(define-sort Str () String)\n")
+	sb.WriteString("(define-fun strEmpty () String \"\")\n")
+	sb.WriteString("(define-fun slen ((s String)) Int (str.len s))\n")
+	sb.WriteString("(define-fun sconcat ((a String) (b String)) String (str.++ a b))\n")
+	sb.WriteString("(define-fun ssub ((s String) (i Int) (n Int)) String (str.substr s i n))\n")
+	sb.WriteString("(define-fun sless ((a String) (b String)) Bool (str.< a b))\n")
+	g := strLitRe.ReplaceAllStringFunc(negGoal, func(m string) string {
+		q := strLitRe.FindStringSubmatch(m)[1]
+		var lit string
+		if _, err := fmt.Sscanf(q, "%q", &lit); err != nil {
+			return m
+		}
+		return "\"" + strings.ReplaceAll(lit, "\"", "\"\"") + "\""
+	})
+	// not (forall xs. B)  ==>  constants xs, assert (not B): the model then names
+	// the counterexample
+	if op, args, ok := sexprArgs(g); ok && op == "not" && len(args) == 1 {
+		if op2, a2, ok2 := sexprArgs(args[0]); ok2 && op2 == "forall" && len(a2) == 2 {
+			if _, vars, ok3 := sexprArgsList(a2[0]); ok3 {
+				for _, v := range vars {
+					if name, vs, ok4 := sexprArgs(v); ok4 && len(vs) == 1 {
+						sb.WriteString("(declare-fun " + name + " () " + vs[0] + ")\n")
+					}
+				}
+				body := a2[1]
+				if opb, ab, okb := sexprArgs(body); okb && opb == "!" && len(ab) >= 1 {
+					body = ab[0]
+				}
+				g = "(not " + body + ")"
+			}
+		}
+	}
+	sb.WriteString("(assert " + g + ")\n(check-sat)\n")
+	return sb.String()
+}
 
 // verifyLemma turns a lemma (a closed specification formula) into an obligation.
 func (e *Engine) verifyLemma(ps *PkgSpec, lm *Lemma) (msg string) {
@@ -27,9 +81,13 @@ func (e *Engine) verifyLemma(ps *PkgSpec, lm *Lemma) (msg string) {
 	st := e.newState()
 	env := &SpecEnv{e: e, st: st, vars: map[string]Value{}, pkg: tp, qn: &e.qn}
 	// axioms of the package are available as hypotheses
-	for _, ax := range ps.Lemmas {
-		if ax.Axiom {
-			st.assume(e.evalSpecBool(env, ax.Expr))
+	if !lm.Strings {
+		for _, ax := range ps.Lemmas {
+			if ax.Axiom {
+				at := e.evalSpecBool(env, ax.Expr)
+				pkgAxiomSyms[at.S] = axiomSymbols(at.S)
+				st.assume(at)
+			}
 		}
 	}
 	goal := e.evalSpecBool(env, lm.Expr)
@@ -37,6 +95,11 @@ func (e *Engine) verifyLemma(ps *PkgSpec, lm *Lemma) (msg string) {
 	ob.Name = pkgBase(ps.Pkg) + ".lemma/" + lm.Name
 	ob.Func = "lemma " + lm.Name
 	ob.Query = e.buildQuery(st.pc, Not(goal))
+	ob.NegGoal = Not(goal).S
+	if lm.Strings {
+		ob.Query = stringsTheoryQuery(Not(goal).S)
+		ob.Goal = "" // no goal splitting / pruning: the query is self-contained
+	}
 	e.obls = append(e.obls, ob)
 	return ""
 }
